@@ -101,6 +101,8 @@ interface exp {
   census: func(n: u32) -> map<u32, u64>;
   roster: func(n: u32) -> map<string, list<u8>>;
   tally: func(m: map<u32, u64>) -> u64;
+  spare: func(n: u32, extra: u32) -> list<u32>;
+  spare-strings: func(n: u32, extra: u32) -> list<string>;
 }
 
 // the exported resource reached through `use` and through a type alias
